@@ -135,7 +135,8 @@ pub fn engine_msg_class(m: &str) -> String {
 pub fn first_diff(a: &[String], b: &[String]) -> String {
   for i in 0..a.len().max(b.len()) {
     if a.get(i) != b.get(i) {
-      return format!("line {}: {:?} vs {:?}", i + 1, a.get(i), b.get(i));
+      let cut = |s: Option<&String>| s.map(|x| super::fmt_common::short(x, 200));
+      return format!("line {}: {:?} vs {:?}", i + 1, cut(a.get(i)), cut(b.get(i)));
     }
   }
   "equal".into()
